@@ -27,6 +27,7 @@ func init() {
 			rulePool(c, "R3")
 			ruleConcatRank(c, "R4")
 			ruleSummaryByBuilder(c, "R5")
+			ruleReadersWriteNothing(c, "R6")
 		},
 	})
 }
